@@ -88,6 +88,9 @@ def gen_hw(rng):
         if rng.random() < 0.3:
             arch += "          bandwidth: %d\n" % rng.choice([3, 13])
     arch += "      subtree:\n      - name: PE[0..%d]\n        local:\n" % npe
+    buf1 = buf_class is not None and rng.random() < 0.5
+    if buf1:
+        arch += "        - name: Buf1\n          class: Buffet\n          attributes:\n            width: 8\n            depth: 64\n"
     if isect:
         arch += "        - name: Isect\n          class: Intersector\n          attributes:\n            type: %s\n" % isect
     if has_mul:
@@ -96,7 +99,7 @@ def gen_hw(rng):
         arch += "        - name: FPAdd\n          class: Compute\n          attributes:\n            type: add\n"
     if has_seq:
         arch += "        - name: Seq\n          class: Sequencer\n          attributes:\n            num_ranks: %d\n" % len(lo)
-    if not (isect or has_mul or has_add or has_seq):
+    if not (isect or has_mul or has_add or has_seq or buf1):
         arch += "        - name: FPAdd2\n          class: Compute\n          attributes:\n            type: add\n"
     # ---- bindings
     b = "bindings:\n  %s:\n  - config: Accel\n    prefix: tmp/%s\n" % (out, name)
@@ -121,6 +124,15 @@ def gen_hw(rng):
                     b += "      evict-on: %s\n" % rng.choice(["root"] + outer)
                     if rng.random() < 0.6:
                         b += "      style: %s\n" % rng.choice(["lazy", "eager", "eager"] if t == out else ["lazy", "eager"])
+    if buf1 and dram:
+        # a second buffer level below the first: same (tensor, rank, type) paths, styles chosen independently
+        sub1 = [x for x in dram if rng.random() < 0.5]
+        if sub1:
+            b += "  - component: Buf1\n    bindings:\n"
+            for t, r, ty in sub1:
+                outer = [x for x in lo[:lo.index(r)]] if r in lo else []
+                style = rng.choice(["lazy", "eager"]) if outer else "lazy"         # (an eager buffet evicting on root is not supported by the compiler)
+                b += "    - tensor: %s\n      rank: %s\n      type: %s\n      format: default\n      evict-on: %s\n      style: %s\n" % (t, r, ty, rng.choice(outer) if style == "eager" else rng.choice(["root"] + outer), style)
     if isect:
         shared = [l for l in lo if sum(1 for t in inputs if l in tranks(t)) >= 2]
         if shared:
@@ -147,7 +159,8 @@ def hw_core():
     cases = [("gemvL", {"A": ["K", "M"], "B": ["K"], "Z": ["M"]}, "Z[m] = A[k, m] * B[k]", ["K", "M"], "K", ["A", "B"]),
              ("gemmL", {"A": ["K", "M"], "B": ["K", "N"], "Z": ["M", "N"]}, "Z[m, n] = A[k, m] * B[k, n]", ["K", "M", "N"], "K", ["A", "B"]),
              ("takeL", {"A": ["K", "M"], "B": ["K"], "Z": ["M"]}, "Z[m] = take(A[k, m], B[k], 0)", ["K", "M"], "K", ["A", "B"]),
-             ("threeL", {"A": ["K", "M"], "B": ["K", "M"], "C": ["K"], "Z": ["M"]}, "Z[m] = A[k, m] * B[k, m] * C[k]", ["M", "K"], "K", ["A", "B", "C"])]
+             ("threeL", {"A": ["K", "M"], "B": ["K", "M"], "C": ["K"], "Z": ["M"]}, "Z[m] = A[k, m] * B[k, m] * C[k]", ["M", "K"], "K", ["A", "B", "C"]),
+             ("three3L", {"A": ["K", "M"], "B": ["K", "N"], "C": ["K", "P"], "Z": ["M", "N", "P"]}, "Z[m, n, p] = A[k, m] * B[k, n] * C[k, p]", ["K", "M", "N", "P"], "K", ["A", "B", "C"])]
     for name, decl, expr, lo, rank, leaders in cases:
         ro = {t: concord(r, lo) for t, r in decl.items()}
         y = mk_yaml(decl, [expr], ro=ro, lo={"Z": lo}, st={"Z": {"space": [], "time": lo}})
@@ -155,8 +168,8 @@ def hw_core():
         for L in leaders:
             arch = "architecture:\n  Accel:\n  - name: System\n    attributes:\n      clock_frequency: 3\n    local:\n    - name: Isect\n      class: Intersector\n      attributes:\n        type: leader-follower\n    - name: FPMul\n      class: Compute\n      attributes:\n        type: mul\n"
             b = "bindings:\n  Z:\n  - config: Accel\n    prefix: tmp/%s\n  - component: Isect\n    bindings:\n    - rank: %s\n      leader: %s\n  - component: FPMul\n    bindings:\n    - op: mul\n" % (name, rank, L)
-            out.append({"yaml": y + fmt + arch + b, "configs": [{r: 3 for rs in decl.values() for r in rs}], "family": "hw-core-" + name, "key": name + L,
-                        "hw": True, "plain_yaml": y, "arch": {}})
+            out.append({"yaml": y + fmt + arch + b, "configs": [{r: (2 if name == "three3L" else 3) for rs in decl.values() for r in rs}], "family": "hw-core-" + name, "key": name + L,
+                        "hw": True, "plain_yaml": y, "arch": {}, "cap": 30})
     out += eager_core()
     return out
 
@@ -186,3 +199,52 @@ def eager_core():
                     out.append({"yaml": y + fmt + arch + b, "configs": [{"K": 3, "M": 3, "N": 3}], "family": "hw-core-eager", "key": "eager" + str((zdecl, adecl, tensor, rank, evict, style)),
                                 "hw": True, "plain_yaml": y, "arch": {}, "cap": 6})
     return out
+
+
+def gen_hw_cascade(rng):
+    """Cascades of 2-4 element-wise Einsums in metrics mode: shared memories, per-Einsum or shared compute units, equal or different
+    space/time splits -- so that fusion blocks of 1-4 Einsums with partly shared components arise."""
+    n = rng.choice([2, 3, 3, 4])
+    two_d = rng.random() < 0.3
+    ranks = ["M", "N"] if two_d else ["M"]
+    idx = ", ".join(r.lower() for r in ranks)
+    decl = {"A": list(ranks)}
+    exprs, ops = [], []
+    prev = "A"
+    for i in range(n):
+        out = "Z" if i == n - 1 else "T%d" % i
+        other = "BCDE"[i]
+        decl[other] = list(ranks)
+        op = rng.choice(["*", "*", "+"])
+        exprs.append("%s[%s] = %s[%s] %s %s[%s]" % (out, idx, prev, idx, op, other, idx))
+        ops.append(op)
+        decl[out] = list(ranks)
+        prev = out
+    outs = [e.split("[")[0] for e in exprs]
+    st = {}
+    for o in outs:
+        sp = [ranks[-1]] if rng.random() < 0.2 else []
+        st[o] = {"space": sp, "time": [r for r in ranks if r not in sp]}
+    y = mk_yaml(decl, exprs, lo={o: list(ranks) for o in outs}, st=st)
+    fmt = "format:\n" + "".join("  %s:\n    default:\n      rank-order: [%s]\n" % (t, ", ".join(ranks)) + "".join("      %s:\n        format: C\n        cbits: 16\n        pbits: 32\n" % r for r in ranks) for t in decl)
+    freq, bw, npe = rng.choice([2, 3, 5]), rng.choice([3, 5, 7]), rng.choice([0, 1, 3])
+    shared_fu = rng.random() < 0.3
+    arch = ("architecture:\n  Accel:\n  - name: System\n    attributes:\n      clock_frequency: %d\n    local:\n    - name: MainMemory\n      class: DRAM\n      attributes:\n        bandwidth: %d\n"
+            "    subtree:\n    - name: PE[0..%d]\n      local:\n      - name: Buf\n        class: Buffet\n        attributes:\n          width: 32\n          depth: 64\n" % (freq, bw, npe))
+    for i in range(n):
+        arch += "      - name: FU%d\n        class: Compute\n        attributes:\n          type: %s\n" % (i, "mul" if ops[i] == "*" else "add")
+    b = "bindings:\n"
+    for i, o in enumerate(outs):
+        b += "  %s:\n  - config: Accel\n    prefix: tmp/%s\n" % (o, o)
+        t = "BCDE"[i] if rng.random() < 0.7 else o
+        r = ranks[-1]
+        b += "  - component: MainMemory\n    bindings:\n    - tensor: %s\n      rank: %s\n      type: payload\n      format: default\n" % (t, r)
+        if rng.random() < 0.7:
+            eager = two_d and rng.random() < 0.5
+            b += "  - component: Buf\n    bindings:\n    - tensor: %s\n      rank: %s\n      type: payload\n      format: default\n      evict-on: %s\n      style: %s\n" % (t, r, "M" if eager else "root", "eager" if eager else "lazy")
+        if rng.random() < 0.7:
+            fu = 0 if (shared_fu and ops[i] == ops[0]) else i
+            b += "  - component: FU%d\n    bindings:\n    - op: %s\n" % (fu, "mul" if ops[i] == "*" else "add")
+    full = y + fmt + arch + b
+    return {"yaml": full, "configs": [{r: 3 for r in ranks}], "family": "hw-cascade", "key": full, "hw": True, "plain_yaml": mk_yaml(decl, exprs, lo={o: list(ranks) for o in outs}),
+            "arch": {}, "cap": 12}
